@@ -1,10 +1,10 @@
-\* G07 generator, client (thorough): 3 calls, more environments, deadline contexts
+\* G07 generator, client (thorough): 3 calls, deadline contexts as well
 SPECIFICATION GenSpecC
 CONSTANTS
   Hows = {"new", "ca"}
   Routes = {"direct", "shared", "ccb"}
   Secs = {"none", "sec"}
-  EnvsNew = {"absent", "dialstall", "stall", "close"}
+  EnvsNew = {"absent", "dialstall", "stall"}
   EnvsCA = {"absent", "dialstall", "close", "stall", "garbage", "serve", "reject"}
   Ctxs = {"live", "pre", "during", "deadline"}
   MaxCalls = 3
